@@ -726,6 +726,9 @@ class ParallelProcess(Process):
             start_method = "forkserver"
         else:
             start_method = "spawn"
+        # Answered locally, so that the engine can ask while the child
+        # is busy computing an update.
+        self._is_step = process.is_step()
         mp_ctx = multiprocessing.get_context(start_method)
         self.parent, child = mp_ctx.Pipe()
         self.multiprocess = mp_ctx.Process( # type: ignore[attr-defined]
@@ -806,11 +809,18 @@ class ParallelProcess(Process):
 
     @property
     def schema(self) -> Optional[Schema]:
-        return self.run_command('schema')
+        # The schema only changes through the setter below, so a copy
+        # is kept here. The engine reads it to rebuild the views after
+        # a structural update, possibly while the child is still
+        # computing an update.
+        if self._schema is None:
+            self._schema = self.run_command('schema')
+        return self._schema
 
     @schema.setter
     def schema(self, value: Optional[Schema]) -> None:
         self.run_command('set_schema', (value,))
+        self._schema = value
 
     def merge_overrides(self, override: Schema) -> None:
         self.run_command('merge_overrides', (override,))
@@ -819,7 +829,7 @@ class ParallelProcess(Process):
         return self.run_command('calculate_timestep', (states,))
 
     def is_step(self) -> bool:
-        return self.run_command('is_step')
+        return self._is_step
 
     def get_private_state(self) -> State:
         return self.run_command('get_private_state')
